@@ -359,6 +359,13 @@ impl Mk {
         blk[o..o + 32].copy_from_slice(e);
     }
 
+    /// Change bytes of a slot already written.
+    pub fn patch_slot(&mut self, d: Dir, slot: usize, f: impl FnOnce(&mut [u8])) {
+        let (b, o) = self.slot_block(d, slot);
+        let blk = self.data.entry(b).or_insert(ZERO);
+        f(&mut blk[o..o + 32]);
+    }
+
     pub fn next_slot(&self, d: Dir) -> usize {
         *self.cursor.get(&d.0).unwrap_or(&0)
     }
